@@ -34,7 +34,6 @@ MANIFEST = {
 }
 
 AXES = "xyz"
-SIMPLE_TAGS = {"px", "py", "pz", "p", "cxc", "cyc", "czc", "sc", "s"}
 DATA = os.path.join(vlib.REPO, "test", "orange", "data")
 KEY_CENTER = "safety-inf-at-center"
 
@@ -463,8 +462,6 @@ def run(ctx):
     if broken and not ctx.violations:
         ctx.violation("unproved", "; ".join(broken)[:700],
                       {"no_longer_checks": broken, "diverging_ops": diverged[:3]}, found_input=False)
-    if diverged:
-        os.makedirs("/tmp/build-c11", exist_ok=True)
     if not quick and ps["build"]["ok"]:
         common.leanchecker(ctx, ["CelerVerif.Props.C11"])
     ctx.assumptions += [
